@@ -225,10 +225,17 @@ def naming_rule(prog: Program, rep, RID: str):
             rep.violation(RID, key, f"expected construct missing: {what}", f.loc())
     # node without attribute -> ignored: the append of (node0,node1) is in the else branch of the attribute test
     ok = False
-    for st in ast.walk(f.node):
-        if isinstance(st, ast.If) and re.fullmatch(r"self\.node_flow_attr in G\.nodes\[node\]", norm(st.test)):
-            if any("self._edges_to_ignore.append((node0, node1))" == norm(s) for s in st.orelse):
-                ok = True
+    from rules.common import substitute_locals
+    for lp in [n for n in walk_no_nested(f.node) if isinstance(n, ast.For) and isinstance(n.target, ast.Name)]:
+        V = lp.target.id
+        ldefs = {}
+        for s_ in lp.body:
+            if isinstance(s_, ast.Assign) and len(s_.targets) == 1 and isinstance(s_.targets[0], ast.Name):
+                ldefs[s_.targets[0].id] = substitute_locals(s_.value, dict(ldefs))
+        for st in lp.body:
+            if isinstance(st, ast.If) and re.fullmatch(r"self\.node_flow_attr in G\.nodes\[%s\]" % V, norm(substitute_locals(st.test, ldefs))):
+                if any(f"self._edges_to_ignore.append(({V} + '.0', {V} + '.1'))" == norm(substitute_locals(s, ldefs)) for s in st.orelse):
+                    ok = True
     key = f"{cname}.__init__:missing-attr-ignored"
     if ok:
         rep.ok(RID, key, "a node without the attribute has its expanded edge appended to the ignore list", f.loc())
@@ -425,27 +432,41 @@ def reader_rule(prog: Program, rep, RID: str, cname: str):
             rep.violation(RID, key, f"reader no longer decodes the writer's scheme: `{norm(cmp_)}` (entry suffix test with len('.0') == 2 against '.0')", f.loc(cmp_))
     key = f"{cname}.get_condensed_paths:reader-drop"
     acc = norm(app.func.value)
-    bad = []
-    for t, pol in enclosing_tests(lp, app):
-        ts = norm(substitute_locals(t, defs))
-        vs = norm(val)
-        m = re.fullmatch(r"%s not in [\[\(\{](self\.global_source_id, self\.global_sink_id|self\.global_sink_id, self\.global_source_id),?[\]\)\}]" % re.escape(vs), ts)
-        if not (m and pol):
-            bad.append((t, pol))
-    prof = None
-    from rules.common import append_counts
-    prof = append_counts(lp.body, acc)
-    leaves = sorted(k for c, k in prof if k != "fall")
-    if bad:
+    # path-wise: an iteration that completes without appending the visited node must have established that the node is
+    # the global source or sink; no iteration appends more than once; nothing leaves the loop early
+    from rules.common import iteration_paths
+    from sa import boolnf as B
+    idefs = {k: v for k, v in defs.items()}
+    for n_ in walk_no_nested(f.node):
+        if isinstance(n_, ast.Assign) and len(n_.targets) == 1 and isinstance(n_.targets[0], ast.Name) and n_.targets[0].id not in idefs and \
+                sum(1 for m_ in walk_no_nested(f.node) if isinstance(m_, ast.Assign) and any(isinstance(t_, ast.Name) and t_.id == n_.targets[0].id for t_ in m_.targets)) == 1:
+            idefs[n_.targets[0].id] = n_.value
+    mutated_ = {n_.func.value.id for n_ in ast.walk(f.node) if isinstance(n_, ast.Call) and isinstance(n_.func, ast.Attribute) and isinstance(n_.func.value, ast.Name) and
+                n_.func.attr in ("append", "add", "extend", "update", "insert", "pop", "remove")}
+    idefs = {k: v for k, v in idefs.items() if k not in mutated_}
+    vs = norm(val)
+    is_global = B.mk_or([B.parse(ast.parse(f"{vs} in [self.global_source_id, self.global_sink_id]", mode="eval").body),
+                         B.parse(ast.parse(f"{vs} in [self.global_sink_id, self.global_source_id]", mode="eval").body),
+                         B.parse(ast.parse(f"{vs} in (self.global_source_id, self.global_sink_id)", mode="eval").body),
+                         B.parse(ast.parse(f"{vs} in {{self.global_source_id, self.global_sink_id}}", mode="eval").body),
+                         B.mk_or([B.parse(ast.parse(f"{vs} == self.global_source_id", mode="eval").body), B.parse(ast.parse(f"{vs} == self.global_sink_id", mode="eval").body)])])
+    paths_ = iteration_paths(lp.body, acc, idefs)
+    drop = [(c, k_) for c, cnt, k_ in paths_ if cnt == 0 and not B.implies(c, is_global)]
+    multi = [c for c, cnt, k_ in paths_ if cnt > 1]
+    early = [k_ for c, cnt, k_ in paths_ if k_ in ("break", "return")]
+    if drop:
         nviol += 1
-        t, pol = bad[0]
-        rep.violation(RID, key, f"a visited node is appended only if `{norm(t)}` is {pol}: nodes other than the global source / sink can be dropped from a "
-                      "returned path (e.g. the second visit of a self-loop node)", f.loc(app))
-    elif leaves:
+        rep.violation(RID, key, f"an iteration can complete without appending the visited node although it is not the global source / sink (path condition: "
+                      f"{B.key(drop[0][0])[:200]}): nodes can be dropped from a returned path (e.g. the second visit of a self-loop node)", f.loc(app))
+    elif multi:
         nviol += 1
-        rep.violation(RID, key, f"an iteration can leave by `{leaves[0]}` without appending the visited node", f.loc(lp))
+        rep.violation(RID, key, "an iteration can append more than one entry for one visited node", f.loc(app))
+    elif early:
+        nviol += 1
+        rep.violation(RID, key, f"an iteration can leave the loop by `{early[0]}`: the rest of the path is lost", f.loc(lp))
     else:
-        rep.ok(RID, key, "every visited node is appended unless it is the global source / sink; no continue/break", f.loc(app))
+        rep.ok(RID, key, "every visited node is appended exactly once unless it is the global source / sink (all non-raising paths of an iteration)", f.loc(app),
+               sample={"paths": len(paths_)})
     if unrecognised and not nviol:
         raise AnalysisError(f"{cname}.get_condensed_paths: reader idiom not recognised ({'; '.join(unrecognised)}); extend rules/c11.py reader_rule after reading the new code")
 
